@@ -36,6 +36,9 @@ pub struct VmError { _p: () }
 
 #[verifier::external_body]
 pub struct ThreadPtr { _p: () }
+// C13: `v` lives in a heap that thread `t` may point into (its own or an ancestor's): what Thread::deep_clone_value
+// establishes for its RECEIVER (`self`); proved for the real function in the C13 clone unit, assumed here
+pub uninterp spec fn holdable_by(v: Value, t: ThreadPtr) -> bool;
 
 impl ThreadPtr {
     // R-gc: GcPtr<Thread>::clone_unrooted copies the pointer
@@ -45,7 +48,7 @@ impl ThreadPtr {
     // C13 clone unit; structural equality of the copy is not verified anywhere).
     #[verifier::external_body]
     pub fn deep_clone_value(&self, owner: &ThreadPtr, value: &Value) -> (r: Result<RootedValue, VmError>)
-        ensures r is Ok ==> same_value(r->Ok_0.v, *value)
+        ensures r is Ok ==> same_value(r->Ok_0.v, *value) && holdable_by(r->Ok_0.v, *self)
     { unimplemented!() }
 }
 
